@@ -65,7 +65,8 @@ def _run_one(args: Tuple[str, str, int]) -> Dict[str, Any]:
         try:
             import ast
 
-            ast.parse(ov[e.file])
+            if e.file.endswith(".py"):
+                ast.parse(ov[e.file])
             repo = Repo(root, ov)
             importlib.import_module(f"sa.rules.{prop.lower()}").run(repo, rep)
         except AnalysisError as ex:
